@@ -31,6 +31,7 @@ type scen struct {
 	Writers  int      `json:"writers"`
 	Packets  int      `json:"packets_per_writer"`
 	Close    bool     `json:"close"`
+	Short    int      `json:"short_readers,omitempty"` // bit r set: reader r reads with a 1-byte slice (every read is a short read)
 	Deadline string   `json:"deadline,omitempty"` // "", past, far, zero, past-then-zero
 	Strategy string   `json:"strategy"`
 	Seed     int64    `json:"seed"`
@@ -145,6 +146,9 @@ func runOne(sc *scen, st sched.Strategy, settle bool, hit map[int]bool) result {
 		s.Go(fmt.Sprintf("R%d", r), func() {
 			defer wg.Done()
 			buf := make([]byte, 16)
+			if sc.Short>>uint(r)&1 == 1 {
+				buf = buf[:1]
+			}
 			for k := 0; k < sc.Reads; k++ {
 				t0 := tick()
 				n, err := b.Read(buf)
@@ -153,6 +157,10 @@ func runOne(sc *scen, st sched.Strategy, settle bool, hit map[int]bool) result {
 				switch {
 				case err == nil && n == 2:
 					o.ID = int(buf[0])
+				case errors.Is(err, io.ErrShortBuffer) && n == 1 && len(buf) == 1:
+					// a short read consumes its packet like any other read
+					o.ID = int(buf[0])
+					err = nil
 				case err == io.EOF:
 					o.ID = -1
 				case isTimeout(err):
@@ -334,6 +342,9 @@ func genScen(rng *rand.Rand) *scen {
 	if rng.Intn(2) == 0 {
 		sc.Close = true
 	}
+	if rng.Intn(3) == 0 {
+		sc.Short = 1 + rng.Intn(1<<uint(sc.Readers)-1)
+	}
 	switch rng.Intn(8) {
 	case 0:
 		sc.Deadline = "past"
@@ -386,7 +397,7 @@ func main() {
 			n++
 		}
 	}
-	r.Rule = "scenarios of 1-3 readers x 1-2 reads, 1-2 writers x 1-3 packets, optional Close task, optional SetReadDeadline(past|far|zero|past-then-zero) task, executed on the real packetio.Buffer under a cooperative scheduler with yield points before every lock/channel/select operation of buffer.go and deadline.go; strategies PCT d=2..4, uniform random, DFS with preemption bound 2 on the smallest scenarios; oracle at quiescent points (parked reader while Count()>0 / after Close / with passed deadline) + linearizability of the completed operations; distinct = distinct schedules (task@point sequences)"
+	r.Rule = "scenarios of 1-3 readers x 1-2 reads (some readers with a 1-byte slice, so that every read of theirs is a short read), 1-2 writers x 1-3 packets, optional Close task, optional SetReadDeadline(past|far|zero|past-then-zero) task, executed on the real packetio.Buffer under a cooperative scheduler with yield points before every lock/channel/select operation of buffer.go and deadline.go; strategies PCT d=2..4, uniform random, DFS with preemption bound 2 on the smallest scenarios; oracle at quiescent points (parked reader while Count()>0 / after Close / with passed deadline) + linearizability of the completed operations; distinct = distinct schedules (task@point sequences)"
 	r.Assumptions = []string{"interleavings inside the Go runtime (direct hand-off to a parked receiver) are below the yield granularity", "blocked is decided from runtime.Stack goroutine states (select, chan receive, sync.Mutex.Lock, ...), sampled three times", "a task released from a real blocking operation runs freely up to its next yield point"}
 	var total int
 	if *pts != "" {
@@ -473,6 +484,8 @@ func main() {
 		{Readers: 2, Reads: 1, Writers: 2, Packets: 1},
 		{Readers: 2, Reads: 1, Writers: 1, Packets: 2, Close: true},
 		{Readers: 2, Reads: 2, Writers: 1, Packets: 2, Close: true},
+		{Readers: 2, Reads: 1, Writers: 2, Packets: 1, Short: 3},
+		{Readers: 2, Reads: 2, Writers: 1, Packets: 2, Short: 1},
 	}
 	dsc := shapes[*shard%len(shapes)]
 	dsc.Strategy = "dfs"
